@@ -274,9 +274,18 @@ def main():
     for f in kf:
         if f["status"] == "known":
             out.append(f"| {f['id']} | {f['property']} | `{f['signature'].replace('|', chr(92)+'|')}` |")
+    tp = f"{V}/THOROUGH.tsv"
+    if os.path.exists(tp):
+        out.append("\n### 9.7b Thorough tier, last run per property\n")
+        out.append("One thorough run per property at `VERIF_SEED=1` (`tools/run_all.sh thorough`, then re-runs of the checks whose harness or whose part of /repo changed afterwards). The commit is the /repo HEAD the run saw; later commits touch other packages than the ones that check exercises (actor supervision: 3317c9d, cluster: fad7336). Violations found by this tier are the entries of 9.3 (harness) and 9.6 (KF-C09-7, KF-C18-8) marked as found by the thorough tier; every row below is the run after the correction.\n")
+        out.append("| property | /repo commit | evaluations | distinct non-trivial | wall (s) | result |\n|---|---|---|---|---|---|")
+        for l in open(tp).read().splitlines()[1:]:
+            c = l.split("\t")
+            if len(c) >= 6:
+                out.append("| " + " | ".join(c[:6]) + " |")
     # seeds
     out.append("\n### 9.8 Sensitivity: seeded changes and which check catches them\n")
-    out.append("Fresh sub-agents (given one property's text and a scratch worktree, nothing from /verif) produced changes that compile, pass the existing suite and break the property; each was confirmed here (demonstration passes on the current HEAD, fails with the change; `tools/revalidate_seeds.sh` repeats that after every fix commit). `tools/try_all_seeds.sh` applies each to a scratch worktree of /repo's HEAD and runs the property's registered quick command against that tree (`VERIF_REPO`). Two rounds of agents were run for most properties; second-round agents frequently re-invented a first-round change (the swapped provider/behaviour reset, the escalation-chain loop variable, the unlocked GetOrCreate, the hoisted completed-check of a future): such duplicates are stored like the others when their demonstration differs, and dropped when the patch is identical (C05 round 2). 'caught by' is the first signature reported.\n")
+    out.append("Fresh sub-agents (given one property's text and a scratch worktree, nothing from /verif) produced changes that compile, pass the existing suite and break the property; each was confirmed here (demonstration passes on the current HEAD, fails with the change; `tools/revalidate_seeds.sh` repeats that after every fix commit). `tools/try_all_seeds.sh` applies each to a scratch worktree of /repo's HEAD and runs the property's registered quick command against that tree (`VERIF_REPO`). Three to four rounds of agents were run per property; second-round agents frequently re-invented a first-round change (the swapped provider/behaviour reset, the escalation-chain loop variable, the unlocked GetOrCreate, the hoisted completed-check of a future): such duplicates are stored like the others when their demonstration differs, and dropped when the patch is identical (C05 round 2). 'caught by' is the first signature reported.\n")
     rows = {}
     mp = f"{V}/seeded/MATRIX.tsv"
     if os.path.exists(mp):
